@@ -158,6 +158,12 @@ def run(ctx: core.Ctx):
         ctx.sample({"spec": jobs[0][0], "seed": jobs[0][1], "status": r0["status"], "virtual_s": r0["virtual_s"], "events": r0["events"]})
     ctx.cov["traces_validated_against_impl"] = len(results)
     ctx.cov["b2_schedules"] = len(results)
+    # exhaustive within a bound: every schedule up to 3 (thorough: 5) deviations from the canonical one, on small scenarios
+    from .. import b2check
+    from .. import gen as _gen
+    _small = _gen.small_scenarios()
+    b2check.run_systematic(ctx, [_small[n] for n in ("reg-in-callback", "close-in-callback", "traffic")], ["C09"], depth=5 if ctx.tier == "thorough" else 3,
+                           label="reg-in-callback, close-in-callback, traffic", max_runs=60000 if ctx.tier == "thorough" else 6000)
     ctx.cov["disagreements_model_vs_impl"] = len(dis)
     ctx.info["rule"] = ("(a) sessions of real subunit objects with 4 scripted re-entrant update callbacks (register / unregister / close from inside a "
                         "callback), 1..6 reported values each; (b) scheduled executions of the real connection: 3 pre-registered message callbacks with "
